@@ -270,7 +270,9 @@ pub fn run_c12(args: &Args) -> Report {
             let s0 = p.sources[0].clone();
             let c = p.file_mut(&s0).unwrap();
             let le = if rng.chance(1, 2) { "\r\n" } else { "\n" };
-            let mut first = "x".repeat(8180 + rng.below(40)).into_bytes();
+            // (round 15: also around 16 KiB, 64 KiB and 128 KiB - whatever window a probe reads, the first line decides)
+            let base_len = *rng.pick(&[8180usize, 8180, 16370, 65520, 131060]);
+            let mut first = "x".repeat(base_len + rng.below(40)).into_bytes();
             first.extend_from_slice(le.as_bytes());
             first.extend_from_slice(c);
             *c = first;
